@@ -285,5 +285,21 @@ CHECKS['C07'] = dict(
     note='Oracle: spec/scopes.py. Known finding F15 (var redeclaring a catch parameter). `with`/eval out of scope.',
 )
 
-NOT_APPLICABLE = {p: PENDING for p in ['C03',
-                                        ]}
+CHECKS['C03'] = dict(
+    engine='E2 tables + E3 charclass + E4',
+    level='other',
+    ref='DESIGN.md 4 (C03), 5',
+    technique='deductive per grammar production (real actions on tagged slots against a spec table of what ES5 dictates; operator levels generated from the ES5 operator table); structural family obligations; audited LALR conflict set; exhaustive lexical obligations; bounded differential against an independently written ES5 reference recogniser',
+    text=('Decided for all inputs: each of the 340 actions builds the node kind its ES5 production dictates with every child in the '
+          'dictated attribute and none dropped or duplicated; the binary operator productions form exactly the ES5 precedence levels, '
+          'left-recursive (left associative) with the right operand one level tighter; assignment and conditional are right-nested; the '
+          'NoIn family mirrors A.3 and the no-brace-or-function family restricts the left-most operand only; the conflicts ply '
+          'resolves silently are exactly the audited ones (dangling else => shift; declaration before expression); t_NUMBER equals the '
+          'NumericLiteral grammar on all short strings; identifier classes on ASCII. NOT decided: that the LALR automaton recognises '
+          'exactly the language of that grammar -- this is a bounded differential (generated sentences, single-token mutations, all '
+          'short token strings) against spec/es5_reference.py. Hence "other".'),
+    note=('Trusted: ply LALR construction and driver; spec/es5_actions.py; spec/es5_reference.py (written independently from the spec '
+          'text). Known findings F14, F20, F28. Repo fixes: NoIn family, *_nobf right operands.'),
+)
+
+NOT_APPLICABLE = {}
